@@ -1,5 +1,3 @@
-use std::cmp;
-
 use rosu_map::section::general::GameMode;
 
 use crate::{
@@ -145,7 +143,12 @@ impl Iterator for CatchGradualDifficulty {
     fn nth(&mut self, n: usize) -> Option<Self::Item> {
         let skip_iter = self.diff_objects.iter().skip(self.idx.saturating_sub(1));
 
-        let mut take = cmp::min(n, self.len().saturating_sub(1));
+        let len = self.len();
+
+        // As per `Iterator::nth`, if fewer than `n + 1` values remain, all
+        // of them are consumed and `None` is returned.
+        let exhaust = n >= len;
+        let mut take = if exhaust { len } else { n };
 
         // The first palpable object has no difficulty object
         if self.idx == 0 && take > 0 {
@@ -161,12 +164,20 @@ impl Iterator for CatchGradualDifficulty {
             self.idx += 1;
         }
 
+        if exhaust {
+            return None;
+        }
+
         self.next()
     }
 }
 
 impl ExactSizeIterator for CatchGradualDifficulty {
     fn len(&self) -> usize {
+        if self.count.is_empty() {
+            return 0;
+        }
+
         self.diff_objects.len() + 1 - self.idx
     }
 }
